@@ -11,7 +11,9 @@ rows = ["%d changes to gorilla/websocket were written by sub-agents that were gi
         "round 3: thirty more, each agent confined to one file other than conn.go (`seeded/Cxx-r3<file>n`); round 4: twenty",
         "more, cooperating edits and history-dependent leaks (`seeded/Cxx-r4n`); round 5: twenty more for the ten",
         "properties round 4 had left out, same brief plus rarely used entry points and non-default options (`seeded/Cxx-r5n`);",
-        "round 6: the same brief for the other ten properties (`seeded/Cxx-r6n`).",
+        "round 6: the same brief for the other ten properties (`seeded/Cxx-r6n`); rounds 7 and 8: once more for each half,",
+        "the agents now also given the one-line summaries of all earlier changes to their property and told to find",
+        "something else (`seeded/Cxx-r7n`, `seeded/Cxx-r8n`).",
         "Each was confirmed (demo passes on the clean tree and fails with the change; suite passes with it), stored",
         "with `patch.diff`, `demo_test.go`, `meta.json`, and run against the property's quick check with",
         "`tools/seedrun.sh` (apply to /repo, check, `git checkout -- .`). `tools/seedall.py` re-runs them all and",
@@ -128,7 +130,21 @@ requests: half of the C13 cases are now preceded by one to three earlier handsha
 request naming this origin's own host, refused requests for this host, other requests of the run - and the
 harness runs serially), C15-r61 (an abandoned compressed message leaves the "compressed" flag set for the next,
 uncompressed one: message flow after the handshake is C15's last sentence, so C15 now also runs the round-trip
-and reader harnesses C01 and C03, which exhibit it).""")
+and reader harnesses C01 and C03, which exhibit it).
+
+Round 7: eighteen more (`seeded/Cxx-r7n`; the C18 agent delivered nothing) for the round-5 properties, the agents
+given the summaries of the earlier changes and asked for different code paths. Five were missed at first:
+C03-r71 (the default ping handler passing on ErrCloseSent from its pong: an eighth of the C03 cases now read on a
+connection whose application already sent its close), C05-r72 (after a fault inside a compressed message a second
+Read answers io.EOF: raw Reads on compressed messages were outside the Spec walk; io.EOF for a partly received
+compressed message is now clause 13 there too, and cut compressed messages are read on after the first error),
+C07-r71 (a type assertion to *tls.Conn on the unparsable-reply path, reached with a TLSClientConfig on a ws://
+URL: C07d Dialers now carry one in half the cases), C11-r72 (WritePreparedMessage leaving isWriting set when
+the write fails: a false "concurrent write" panic on the third call; the sequential close programs C09w exhibit it
+and now run under C11 as well), C14-r72 (the rejected reply's body cut to what was already buffered when no
+timeout is configured: a third of the C14 replies now arrive in pieces; clause 118 = fewer body bytes kept than
+the reply carried). C14-r71 (Host: ::1 for ws://[::1]/) was caught by the correspondence only; clause 117 (the
+Host header is the URL's host as written or the caller's override) makes it concrete.""")
 sec = open('/verif/tools/design_sec11.md').read().replace('SEEDED_TABLE', '\n'.join(rows))
 d = open('/verif/DESIGN.md').read()
 d = re.sub(r'## 11\. As built.*?(?=## Appendix A\.)', '', d, flags=re.S)
